@@ -5,7 +5,7 @@
    any two steps (within MaxCrash). *)
 EXTENDS QtlRotation
 
-CONSTANTS Ls, Ns, Opts, Sizes, MaxSends, MaxDay, MaxRestarts, MaxCrash, MaxFault, MaxGzWrites, Ticks, Fatal, FlushOnFatal
+CONSTANTS Ls, Ns, Opts, Sizes, MaxSends, MaxDay, MaxRestarts, MaxCrash, MaxFault, MaxGzWrites, Ticks, Fatal, FlushOnFatal, ZoneBack, ZoneTies
 
 VARIABLE mc      \* bounds bookkeeping: [sends, faults, crashes, gzw]
 mcvars == <<vars, mc>>
@@ -25,7 +25,7 @@ MCInit ==
                    <<>>, <<>>, <<>>, <<0, 0>>)
     /\ mc = [sends |-> 0, faults |-> 0, crashes |-> 0, gzw |-> 0, stage |-> 0]
 
-MCCanStop == (cfg.daily /\ cfg.N # 1) => CanStop
+MCCanStop == ((cfg.daily /\ cfg.N # 1) \/ g.zoned) => CanStop
 
 \* the fatal path of Logger::processMessage: the pipeline runs for the fatal message, then (FlushOnFatal)
 \* the sinks are flushed, then Qt aborts
@@ -42,9 +42,19 @@ MCSend == Calm /\ mc.sends < MaxSends /\ (\E len \in Sizes : BeginSend(len)) /\ 
 MCFlush == Calm /\ sk.buf # <<>> /\ BeginFlush /\ UNCHANGED mc
 MCDestroy == Calm /\ MCCanStop /\ BeginDestroy /\ UNCHANGED mc
 MCInt == StepInt /\ UNCHANGED mc
+\* Once the local date has gone back, two rotated files with the SAME modification time cannot be told apart by
+\* anything on disk: their names no longer carry the rotation order (known finding C06 zone-tie; the witness
+\* configuration MC_Rot_W_ZoneTie sets ZoneTies and shows it).  Unless ZoneTies, the clock therefore moves with every
+\* write to the active file after a zone change.
+MoveClock(lab) == ZoneBack /\ ~ZoneTies /\ g.zoned /\ lab.c = "write" /\ lab.f = ACTIVE
+StepSysAt(lab, ok, t) ==
+    /\ sk.alive /\ ~AtRest(Here) /\ NeedsSys(Here)
+    /\ SysEnabled(Here, lab, ok)
+    /\ Become(DoSys(Here, cfg, t, lab, ok))
+    /\ now' = t /\ UNCHANGED cfg
 MCSys ==
     \E lab \in (IF sk.alive /\ ~AtRest(Here) /\ NeedsSys(Here) THEN SysLabels(Here) ELSE {}), ok \in BOOLEAN :
-        /\ StepSys(lab, ok)
+        /\ IF MoveClock(lab) THEN StepSysAt(lab, ok, <<now[1], now[2] + 1>>) ELSE StepSys(lab, ok)
         /\ LET fcost == IF ~ok /\ sk.pc # "cpOpenDst" THEN 1 ELSE 0
                wcost == IF sk.pc = "gzBody" /\ lab.c = "write" THEN 1 ELSE 0
            IN  /\ mc.faults + fcost <= MaxFault
@@ -58,9 +68,20 @@ Quiet == ~sk.alive \/ sk.pc = "idle"
 MCTick == /\ Ticks /\ Quiet
           /\ \E n \in DOMAIN dir : dir[n].mt = now
           /\ SetNow(<<now[1], now[2] + 1>>) /\ UNCHANGED mc
-MCNextDay == /\ Quiet /\ now[1] < MaxDay
+MCNextDay == /\ Quiet /\ now[1] < MaxDay /\ ~g.zoned
              /\ SetNow(<<now[1] + 1, 0>>) /\ UNCHANGED mc
 
-MCNext == MCFatal \/ MCConstruct \/ MCSend \/ MCFlush \/ MCDestroy \/ MCInt \/ MCSys \/ MCCrash \/ MCTick \/ MCNextDay
+\* (ZoneBack) once per behaviour the local date goes back by one day while time goes on; not while the sink holds
+\* records of the old day in its buffer or its file would be stopped over (the stop rule of the environment)
+\* (a sink constructed - or initialised by its first record - in the new zone over a non-empty file of the old one attributes the file to the wrong day -
+\* it has nothing but the modification time to go by; like stopping over a stale file this is outside C09)
+MCZone == /\ ZoneBack /\ Quiet /\ g.tz = 0 /\ now[1] >= 1
+          /\ (IF sk.alive /\ sk.inited THEN TRUE ELSE IF ACTIVE \in DOMAIN dir THEN dir[ACTIVE].recs = <<>> ELSE TRUE)
+          \* the day the calendar goes back to has left no rotated names behind (an index freed by retention would be
+          \* handed out again: the naming scheme relies on a date that does not return)
+          /\ \A u \in g.used : u[2] # now[1] - 1
+          /\ ShiftZone(0 - 1, <<now[1], now[2] + 1>>) /\ UNCHANGED mc
+
+MCNext == MCZone \/ MCFatal \/ MCConstruct \/ MCSend \/ MCFlush \/ MCDestroy \/ MCInt \/ MCSys \/ MCCrash \/ MCTick \/ MCNextDay
 MCSpec == MCInit /\ [][MCNext]_mcvars
 =============================================================================
